@@ -290,3 +290,31 @@ Lemma f33_witness :
   client_step (fun _ _ => true) true [2] [true] (fun _ _ => true) CRP_CertificateOrRequest13 true 772 f33_msg
     = Err a_bad_certificate.
 Proof. split; vm_compute; reflexivity. Qed.
+
+(* ---------- bound on what is pulled out of the decompressor ---------- *)
+Theorem decompress_pulled_bound adv alg ulen open_ok : ulen < 16777216 ->
+  decompress_pulled_max true adv alg ulen open_ok <= maxHandshakeCertificateMsg + 1.
+Proof.
+  intros H. unfold decompress_pulled_max.
+  destruct (decompress_alloc_spec true adv alg ulen open_ok H) as [-> | [-> Hc]]; [unfold maxHandshakeCertificateMsg; lia|].
+  specialize (Hc eq_refl). cbn [decompress_read_buffers fold_right]. lia.
+Qed.
+
+(* ---------- establishHandshakeKeys: every slice expression on the server share is in bounds ---------- *)
+Theorem establish_share_slices_no_panic group data : forall p, establish_share_slices group data <> Panic p.
+Proof.
+  intros p. unfold establish_share_slices, slice_from, slice_to, hybrid_share_len.
+  destruct (group =? X25519MLKEM768) eqn:E1; destruct (group =? X25519Kyber768Draft00) eqn:E2.
+  - apply N.eqb_eq in E1, E2. rewrite E1 in E2. discriminate.
+  - destruct (Nat.eqb_spec (length data) 1120) as [L|L]; cbn [negb bind]; [|discriminate].
+    rewrite L. cbn [Z.of_nat Z.ltb orb bind Pos.of_succ_nat]. vm_compute (Z.of_nat 1120). cbn [Z.ltb Z.compare Pos.compare Pos.compare_cont orb bind]. discriminate.
+  - cbn [bind]. destruct (Nat.eqb_spec (length data) 1120) as [L|L]; cbn [negb bind]; [|discriminate].
+    rewrite L. vm_compute (Z.of_nat 1120). cbn [Z.ltb Z.compare Pos.compare Pos.compare_cont orb bind]. discriminate.
+  - cbn [bind]. discriminate.
+Qed.
+
+(* ---------- Read never blocks on its own locks, however many HelloRequests arrive ---------- *)
+Lemma lock_run_reneg n : forall r, lock_run [L_in] (concat (repeat ops_handle_renegotiation n) ++ r) = lock_run [L_in] r.
+Proof. induction n as [|n IH]; intros r; [reflexivity|]. cbn [repeat concat]. rewrite <- app_assoc. cbn. apply IH. Qed.
+Theorem read_no_self_deadlock n : lock_run [] (ops_read n) = Ok [].
+Proof. unfold ops_read. cbn [app lock_run existsb]. rewrite lock_run_reneg. reflexivity. Qed.
